@@ -26,7 +26,8 @@ def strat(draw, tier):
         if f == 'partially_occluded':
             sd['agent'][0] = y = h - 1
         area = [[-y, h - 1 - y], [-x, w - 1 - x]]
-    return {'state': sd, 'area': area, 'f': f, 'seed': draw(gen.seed_s)}
+    pre = draw(st.sampled_from([None, None] + [g for g in obsutil.DETERMINISTIC if g != 'partially_occluded' or area[0][1] == 0]))
+    return {'state': sd, 'area': area, 'f': f, 'seed': draw(gen.seed_s), 'pre': pre}
 
 
 def box_variant(sd):
@@ -53,7 +54,11 @@ def oracle(case, ctx):
     if variant is not None:
         # history: an earlier observation of a look-alike world must not leak into this one
         guarded(ctx, f'observation {f}', obsutil.observe, f, variant, area, seed)
-    od = guarded(ctx, f'observation {f} area {area}', obsutil.observe, f, sd, area, seed)
+    S = objs.build_state(sd)
+    if case.get('pre'):
+        # the same State object is observed twice: an earlier observation must not leak into the next one
+        guarded(ctx, f'observation {case["pre"]}', obsutil.observe, case['pre'], S, area)
+    od = guarded(ctx, f'observation {f} area {area}', obsutil.observe, f, S, area, seed)
     vh, vw = M.area_shape(area)
     sig = {'kind': 'soundness', 'f': f}
     if M.shape(od) != (vh, vw) or any(len(r) != vw for r in od['grid']):
@@ -85,6 +90,8 @@ def oracle(case, ctx):
         cl.append('ymax!=0')
     if variant is not None:
         cl.append('box_lookalike_history')
+    if case.get('pre'):
+        cl.append('second_observation')
     if M.shape(full) == M.shape(sd) and not off:
         cl.append('view==grid')
     ctx.ev.case(case, nt=((off or odd) and nonfloor), classes=cl, key=[sd, area, f])
